@@ -4,7 +4,13 @@ package main
 // seeded by VERIF_SEED, so a disagreement replays exactly.
 type RNG struct{ s uint64 }
 
-func NewRNG(seed uint64) *RNG { return &RNG{s: seed*0x9E3779B97F4A7C15 + 0x1234567} }
+func NewRNG(seed uint64) *RNG {
+	// scramble the seed so that consecutive seeds give unrelated streams
+	z := seed + 0x632BE59BD9B4E019
+	z = (z ^ (z >> 30)) * 0xBF58476D1CE4E5B9
+	z = (z ^ (z >> 27)) * 0x94D049BB133111EB
+	return &RNG{s: z ^ (z >> 31)}
+}
 
 func (r *RNG) Next() uint64 {
 	r.s += 0x9E3779B97F4A7C15
